@@ -99,9 +99,16 @@ func c06ScenarioN(nMsgs, nClosers int, panicking bool, repeat int) {
 			if err == nil {
 				vrt.Assert(sub.closed, "when Close returns nil the handler's subscriber has been closed")
 				// every emitted message: handled to completion and settled, or never handled and never acked
+				st.mu.Lock()
+				started := st.started
+				st.mu.Unlock()
 				for _, m := range msgs {
 					s := settlementOf(m)
 					vrt.Assert(s == 0 || s == 1 || s == 2, "settled at most once")
+					if nMsgs == 1 {
+						vrt.Assert(started == 0 || s != 0, "a message whose handling started is settled before Close returns nil")
+						vrt.Assert(started != 0 || s != 1, "a message that was never handled is never acked")
+					}
 				}
 			}
 			done <- struct{}{}
